@@ -33,6 +33,14 @@ int internUuid(const std::string& u) {
   return n;
 }
 void resetScenario() { g_uuids.clear(); }
+std::string& lastNote() {
+  static std::string s;
+  return s;
+}
+std::vector<std::pair<std::string, int>>& initLog() {
+  static std::vector<std::pair<std::string, int>> v;
+  return v;
+}
 
 std::string ctxJson(const Oomd::ActionContext& c) {
   long long dl = -1;
@@ -61,6 +69,7 @@ class ScriptedPlugin : public Engine::BasePlugin {
     argParser_.addArgument("id", id_, true);
     argParser_.addArgumentCustom("post_action_delay", delay_, PluginArgParser::parseUnsignedInt);
     argParser_.addArgument("cgroup", cgroup_);
+    argParser_.addArgument("note", note_); // free-form value, used to observe how JSON values arrive
     if (!argParser_.parse(args)) {
       evEmit(J().str("e", "InitFail").num("serial", serial_));
       return 1;
@@ -75,6 +84,8 @@ class ScriptedPlugin : public Engine::BasePlugin {
                .str("cg", cgroup_)
                .str("fs", context.cgroupFs())
                .raw("args", J::arr(kv)));
+    initLog().emplace_back(id_, delay_ ? *delay_ : -1);
+    lastNote() = note_;
     return 0;
   }
   void prerun(OomdContext&) override {
@@ -111,6 +122,7 @@ class ScriptedPlugin : public Engine::BasePlugin {
   long calls_{0};
   std::string id_;
   std::string cgroup_;
+  std::string note_;
   std::optional<int> delay_;
 };
 
